@@ -93,7 +93,7 @@ def run(ctx):
         if len(A) < 2 or len(A) > 14:
             continue
         A = [(n, r) for n, r in A if True]
-        if len(set(n[:256] for n, _ in A)) != len(A):
+        if len(set(n for n, _ in A)) != len(A):
             continue
         mode = rng.randrange(5)
         if mode == 0:
